@@ -380,6 +380,35 @@ _REL = {  # a REL b, as facts about lin = a - b over the integers: list of (sign
 _NEG = {"Lt": "Ge", "Le": "Gt", "Gt": "Le", "Ge": "Lt", "Eq": "Ne", "Ne": "Eq"}
 
 
+def _deref_local(body, op):
+    """x for an operand that is `&x` (through copies)"""
+    l = op_root(op)
+    fl = flow(body)
+    return fl._ref_of_local(l) if l is not None else None
+
+
+def _array_elems(body, op):
+    """operands of the array literal an operand (a `&[T]` obtained from `&[a, b, ..]`) refers to"""
+    l = op_root(op)
+    seen = set()
+    while l is not None and l not in seen and len(seen) < 8:
+        seen.add(l)
+        ds = [d for d in body.defs.get(l, []) if d[1] in ("assign", "call", "arg")]
+        if len(ds) != 1 or ds[0][1] != "assign":
+            return None
+        rv = ds[0][2]["rv"]
+        if "agg" in rv and ("array" in rv["agg"] or rv["agg"].get("kind") == "array" or "Array" in str(rv["agg"])):
+            return rv["ops"]
+        nxt = None
+        for key in ("use", "cast"):
+            if key in rv:
+                nxt = op_root(rv[key])
+        if "ref" in rv and not [e for e in rv["ref"]["proj"] if e != "deref"]:
+            nxt = rv["ref"]["local"]
+        l = nxt
+    return None
+
+
 def branch_facts(body):
     """[(block, target, kind, lin, bound)]: taking the edge block->target establishes  lin <= bound  (kind 'le') or lin != 0 (kind 'ne')"""
     bf = getattr(body, "_branch_facts", None)
@@ -390,6 +419,17 @@ def branch_facts(body):
     bf = []
     for blk in range(len(body.blocks)):
         cd = cond_of(body, blk)
+        if cd and cd["kind"] == "call" and cd.get("call") is not None and getattr(cd["call"], "name", "") == "contains" and len(cd["call"].args) == 2:
+            # `[a, b].contains(&x)`: on the false edge x differs from every element
+            elems = _array_elems(body, cd["call"].args[0])
+            xl = _deref_local(body, cd["call"].args[1])
+            if elems and xl is not None:
+                fx = ev.local(xl)
+                for e in elems:
+                    fe = ev.operand(e)
+                    if fx is not TOP and fe is not TOP:
+                        bf.append((blk, cd["false"], "ne", fx - fe, None))
+            continue
         if not cd or cd["kind"] != "cmp" or cd["op"] not in _REL:
             continue
         a, b = ev.operand(cd["a"]), ev.operand(cd["b"])
